@@ -55,7 +55,7 @@ outer:
 	for rep := 0; rep < reps; rep++ {
 		for _, sh := range shared {
 			for _, de := range dedicated {
-				for _, shape := range []string{"chain", "wide", "random", "failing"} {
+				for _, shape := range []string{"chain", "wide", "random", "failing", "wide-failing"} {
 					if hangs >= 2 {
 						break outer // two hangs are evidence enough; do not wait for more watchdogs
 					}
@@ -65,6 +65,11 @@ outer:
 					base := scenarioDir(o, "pool", sc)
 					p := newProject(o, base, "in")
 					p.ExtraEnv = []string{fmt.Sprintf("DUD_VERIF_SHARED_WORKERS=%d", sh), fmt.Sprintf("DUD_VERIF_DEDICATED_WORKERS=%d", de), fmt.Sprintf("GOMAXPROCS=%d", gmp)}
+					if rr.chance(1, 3) {
+						// the cache cannot be renamed into: every file is copied and then replaced by a link
+						p.ExtraEnv = append(p.ExtraEnv, "DUD_VERIF_FORCE_NO_RENAME=1")
+						s.count("forced-copy-into-cache")
+					}
 					p.Timeout = 90 * time.Second
 					p.init()
 					var art *Node
@@ -77,8 +82,20 @@ outer:
 					default:
 						art = genTree(rr, 0, treeOpts{maxDepth: 3, maxFan: 6, hostile: false, allowEmptyDir: true}, &pool, nil)
 					}
-					failing := shape == "failing"
-					if failing {
+					if (shape == "wide" || shape == "random") && rr.chance(1, 2) {
+						long := strings.Repeat("L", 210)
+						art.set(long+"_first", nFile(rr.bytes(40)))
+						art.set(long+"_second", nFile(rr.bytes(41)))
+						art.sortEnts()
+					}
+					failing := shape == "failing" || shape == "wide-failing"
+					if shape == "wide-failing" {
+						// more entries than all the workers together, and the entry that cannot be
+						// committed comes early: the feeder still has entries to hand out when it fails
+						art = wideTree(width+200-rr.intn(9), rr)
+						art.set("!early_bad", []*Node{{Kind: "o"}, {Kind: "lo", Data: []byte("/nonexistent/target")}}[rr.intn(2)])
+						art.sortEnts()
+					} else if failing {
 						// an entry that cannot be committed, at a random position of a random directory
 						var dirs []*Node
 						walkEntries(art, "", func(_ string, n *Node) {
